@@ -4,6 +4,7 @@ import ast
 from xlsa import Unmodelled, AnchorMissing
 from xlsa.consteval import Ref, Obj, Unfoldable
 from xlsa.load import walk_local, names_in, dotted
+from xlsa.guards import Interp, Rec, PyModel, Opaque
 from xlsa import flow
 from .common import func_params, value_returns, last_return, XLERR, XLT, is_excel_error_ref
 
@@ -46,7 +47,7 @@ def _evals_param(ctx, fn, pname, depth=0):
 
 def rule_1(ctx):
     am = ctx.mod('ast_nodes')
-    ev = am.func('FunctionNode.eval')
+    ev = ctx.func('ast_nodes', 'FunctionNode.eval')
     branches = []
     for n in walk_local(ev):
         if isinstance(n, ast.If) and _is_xlexpr(ctx, n.test, am):
@@ -106,198 +107,141 @@ def rule_1(ctx):
     ctx.floor(8, 'thunk wrapping obligations')
 
 
-def _paths_if(ctx, fn, thunks):
-    """Enumerate paths through a tiny function: yields (calls list, chosen-by) per path.
+class _Thunk(PyModel):
+    """A delayed argument: records every call; raises (as a Python-level failure) when it must never be evaluated."""
 
-    Supports IfExp / If / Return / Assign / Expr. A path is a list of thunk names called in order.
-    """
-    results = []
+    def __init__(self, label, value, log, forbidden=False):
+        self.label, self.value, self.log, self.forbidden = label, value, log, forbidden
 
-    def ev_expr(e, calls):
-        """Return list of (calls) alternatives after evaluating expression e."""
-        if isinstance(e, ast.IfExp):
-            out = []
-            for c1 in ev_expr(e.test, calls):
-                for br in (e.body, e.orelse):
-                    out += ev_expr(br, c1 + [('branch', br is e.body, ast.unparse(e.test))])
-            return out
-        if isinstance(e, ast.Call):
-            alts = [calls]
-            for a in list(e.args) + [k.value for k in e.keywords]:
-                alts = [x for al in alts for x in ev_expr(a, al)]
-            if isinstance(e.func, ast.Name) and e.func.id in thunks:
-                alts = [al + [('call', e.func.id)] for al in alts]
-            elif not isinstance(e.func, ast.Name):
-                alts = [x for al in alts for x in ev_expr(e.func, al)]
-            return alts
-        if isinstance(e, ast.BoolOp):
-            # short-circuit: prefix paths
-            alts = [calls]
-            out = []
-            for i, v in enumerate(e.values):
-                nxt = [x for al in alts for x in ev_expr(v, al)]
-                if i < len(e.values) - 1:
-                    out += [n + [('short', i)] for n in nxt]
-                alts = nxt
-            return out + alts
-        alts = [calls]
-        for ch in ast.iter_child_nodes(e):
-            if isinstance(ch, ast.expr):
-                alts = [x for al in alts for x in ev_expr(ch, al)]
-        return alts
+    def __call__(self):
+        self.log.append(self.label)
+        if self.forbidden:
+            from xlsa.guards import ExcRaised
+            raise ExcRaised(Ref('builtin:RuntimeError'))
+        return self.value
 
-    def run(stmts, calls):
-        if not stmts:
-            results.append(calls)
-            return
-        s, rest = stmts[0], stmts[1:]
-        if isinstance(s, ast.Expr) and isinstance(s.value, ast.Constant):
-            run(rest, calls)
-        elif isinstance(s, ast.Return):
-            for c in (ev_expr(s.value, calls) if s.value is not None else [calls]):
-                results.append(c)
-        elif isinstance(s, ast.Raise):
-            results.append(calls + [('raise',)])
-        elif isinstance(s, (ast.Assign, ast.Expr, ast.AnnAssign, ast.AugAssign)):
-            for c in ev_expr(s.value, calls):
-                run(rest, c)
-        elif isinstance(s, ast.If):
-            for c in ev_expr(s.test, calls):
-                run(list(s.body) + rest, c + [('branch', True, ast.unparse(s.test))])
-                run(list(s.orelse) + rest, c + [('branch', False, ast.unparse(s.test))])
-        else:
-            raise Unmodelled(f'statement {type(s).__name__} in {fn.name}')
 
-    run(list(fn.body), [])
-    return results
+def _logic_models(ctx):
+    def is_blank(v):
+        return v is None or (isinstance(v, str) and v == '') or (isinstance(v, Rec) and v.f.get('cls') == XLT + 'Blank')
+
+    def flatten(values):
+        out = []
+        if isinstance(values, Rec) and values.f.get('cls') == XLT + 'Array':
+            values = values.f['items']
+        for v in values:
+            if isinstance(v, Rec) and v.f.get('cls') == XLT + 'Array':
+                out.extend(v.f['items'])
+            elif isinstance(v, (list, tuple)):
+                out.extend(flatten(v))
+            else:
+                out.append(v)
+        return out
+
+    def number_is_type(v):
+        if isinstance(v, Rec):
+            return bool(v.f.get('cls')) and ctx.res.is_subclass(v.f['cls'], XLT + 'Number')
+        return isinstance(v, (int, float))
+    return {XLT + 'Blank.is_blank': is_blank, 'pkg:xlfunctions.xl:flatten': flatten, XLT + 'Number.is_type': number_is_type}
+
+
+def _cellval(cls, value):
+    """A value as it sits in a range cell: an instance of a value class."""
+    return Rec(cls=XLT + cls, value=value, truthy=bool(value))
+
+
+def _array(*items):
+    return Rec(cls=XLT + 'Array', items=list(items))
+
+
+def _isinst(ctx):
+    def isinst(val, refs):
+        refs = refs if isinstance(refs, tuple) else (refs,)
+        cls = val.f.get('cls') if isinstance(val, Rec) else None
+        return bool(cls) and any(r and ctx.res.is_subclass(cls, r) for r in refs)
+    return isinst
+
+
+def _call(ctx, f, args):
+    """Partially evaluate a registered logical function on thunks. Returns the Outcome."""
+    fn = f.node
+    params = f.params
+    env = {}
+    pos = [p for p in params if p.kind == 'pos']
+    vp = next((p for p in params if p.kind == 'varpos'), None)
+    for p_, a in zip(pos, args):
+        env[p_.name] = a
+    for p_ in pos[len(args):]:
+        if p_.default is not None:
+            it0 = Interp(ctx.a, f.module, {}, call_models={XLT + 'ValueExpr': lambda v: _Thunk('default', v, [])})
+            env[p_.name] = it0.ev(p_.default)
+    if vp is not None:
+        env[vp.name] = tuple(args[len(pos):])
+    it = Interp(ctx.a, f.module, env, isinstance_fn=_isinst(ctx), call_models=_logic_models(ctx), inline_pkg=True, scope_fn=fn)
+    return it.run(fn.body)
 
 
 def rule_2(ctx):
     f = _regfunc(ctx, 'IF')
-    fn = f.node
-    p = func_params(fn)
-    if len(p) != 3:
-        raise Unmodelled('IF does not have three parameters')
-    cond, t, e = p
-    paths = _paths_if(ctx, fn, set(p))
-    seen = set()
-    for path in paths:
-        if any(x[0] == 'raise' for x in path):
-            continue
-        calls = [x[1] for x in path if x[0] == 'call']
-        key = tuple(calls)
-        label = '->'.join(calls) or 'none'
-        n_cond = calls.count(cond)
-        n_br = calls.count(t) + calls.count(e)
-        ok = n_cond == 1 and n_br == 1 and calls.index(cond) == 0
-        seen.add(key)
-        ctx.expect(ok, fn, f'IF path {label}',
-                   f'on a path through IF the thunks called are {calls}: the condition must be evaluated exactly once, first, '
-                   'and exactly one branch after it')
-    ctx.expect({(cond, t), (cond, e)} <= seen, fn, 'IF has a path for each branch',
-               f'IF paths {sorted(seen)}: not both branches selectable')
-    # the TRUE branch is the one taken when the condition is true
-    tb = None
-    for n in walk_local(fn):
-        if isinstance(n, ast.IfExp) or isinstance(n, ast.If):
-            body = n.body if isinstance(n, ast.IfExp) else ast.Module(body=n.body, type_ignores=[])
-            txt_b = ast.unparse(body)
-            txt_t = ast.unparse(n.test)
-            if f'{cond}' in txt_t or True:
-                negated = isinstance(n.test, ast.UnaryOp) and isinstance(n.test.op, ast.Not)
-                tb = (f'{t}(' in txt_b) != negated
-                break
-    ctx.expect(bool(tb), fn, 'condition TRUE selects value_if_true', 'the branches of IF are swapped')
-    ctx.floor(3, 'IF paths')
+    for cond, want_branch in ((True, 'a'), (False, 'b'), (1, 'a'), (0, 'b'), (2.5, 'a'), (None, 'b')):
+        log = []
+        t = [_Thunk('cond', cond, log), _Thunk('a', 'A', log), _Thunk('b', 'B', log)]
+        try:
+            out = _call(ctx, f, t)
+        except Unmodelled as exc:
+            raise Unmodelled(f'IF: {exc}')
+        ok = out.end == 'return' and out.value == want_branch.upper() and log.count('cond') == 1 and log.index('cond') == 0 \
+            and log.count(want_branch) == 1 and len(log) == 2
+        ctx.expect(ok, f.node, f'IF(condition {cond!r}): one evaluation of the condition, then only branch {want_branch}',
+                   f'IF with a condition evaluating to {cond!r} evaluates {log} and yields {out.value!r}: exactly the condition and the '
+                   f'selected branch ({want_branch}) must be evaluated, in that order')
+    # omitted branches
+    log = []
+    out = _call(ctx, f, [_Thunk('cond', False, log), _Thunk('a', 'A', log)])
+    ctx.expect(out.end == 'return' and out.value is False, f.node, 'IF(FALSE, a) yields FALSE',
+               f'IF with the else-branch omitted and a false condition gives {out.end} {out.value!r}')
+    ctx.floor(7, 'IF decision table')
 
 
 def rule_3(ctx):
-    for name, decisive in (('AND', False), ('OR', True)):
+    cases = {
+        'AND': [((True, True), True), ((True, False), False), ((1, 0), False), ((1, 2), True), ((True, None, True), True),
+                ((None, 0), False), (('', 1), True), (([1, True], True), True), (([1, 0], True), False),
+                ((_array(_cellval('Number', 1), _cellval('Boolean', True), _cellval('Boolean', False)),), False),
+                ((_array(_cellval('Number', 1), _cellval('Boolean', True)), True), True),
+                ((_array(_cellval('Number', 0)), True), False)],
+        'OR': [((False, False), False), ((False, True), True), ((0, 0), False), ((0, 3), True), ((False, None), False),
+               ((None, 1), True), (('', 0), False), (([0, False], False), False), (([0, 1], False), True),
+               ((_array(_cellval('Number', 0), _cellval('Boolean', True)),), True),
+               ((_array(_cellval('Boolean', False), _cellval('Number', 0)), False), False)],
+    }
+    for name, rows in cases.items():
         f = _regfunc(ctx, name)
-        fn = f.node
-        vp = next((p for p in f.params if p.kind == 'varpos'), None)
-        if vp is None:
-            raise Unmodelled(f'{name} has no var-positional parameter')
-        loops = [n for n in fn.body if isinstance(n, ast.For) and names_in(n.iter) == {vp.name}]
-        ok = len(loops) == 1 and isinstance(loops[0].iter, ast.Name)
-        ctx.expect(ok, fn, f'{name} iterates its thunks in order',
-                   f'{name} does not loop directly over its thunks (they may be pre-computed or reordered)')
-        if not ok:
+        for vals, want in rows:
+            log = []
+            try:
+                out = _call(ctx, f, [_Thunk(f't{i}', v, log) for i, v in enumerate(vals)])
+            except Unmodelled as exc:
+                raise Unmodelled(f'{name}: {exc}')
+            ctx.expect(out.end == 'return' and out.value is want, f.node, f'{name}{vals!r}',
+                       f'{name}{vals!r} gives {out.end} {out.value!r}, expected {want}: conjunction/disjunction of the truth values of the '
+                       'non-blank elements (numbers true exactly when non-zero)')
+        # laziness: nothing after the decisive element is evaluated
+        decisive = False if name == 'AND' else True
+        log = []
+        out = _call(ctx, f, [_Thunk('t0', not decisive, log), _Thunk('t1', decisive, log), _Thunk('t2', None, log, forbidden=True)])
+        if log != ['t0', 't1'] and out.called('<eager-generator>'):
+            ctx.unmodelled(f.node, f'{name}: laziness through a generator helper is not modelled')
             continue
-        lp = loops[0]
-        tv = lp.target.id
-        calls = [c for c in ast.walk(lp) if isinstance(c, ast.Call) and isinstance(c.func, ast.Name) and c.func.id == tv]
-        pre = [c for c in flow.calls_in(fn) if not flow.contains(lp, c) and isinstance(c.func, ast.Name) and c.func.id == tv]
-        compre = [n for n in walk_local(fn) if isinstance(n, (ast.ListComp, ast.GeneratorExp)) and not flow.contains(lp, n)
-                  and any(isinstance(c, ast.Call) and isinstance(c.func, ast.Name) and names_in(c.func) <= names_in(n.generators[0].target)
-                          for c in ast.walk(n.elt)) and names_in(n.generators[0].iter) == {vp.name}]
-        ctx.expect(len(calls) == 1 and not pre and not compre, lp, f'{name} calls one thunk per iteration',
-                   f'{name} evaluates its arguments outside the short-circuit loop: later arguments are computed although an '
-                   'earlier one decides the result')
-        rets = [r for r in ast.walk(lp) if isinstance(r, ast.Return)]
-        ok = any(isinstance(r.value, ast.Constant) and r.value.value is decisive for r in rets)
-        ctx.expect(ok, lp, f'{name} returns {decisive} from inside the loop',
-                   f'{name} does not return {decisive} as soon as an element decides the result')
-        after = [s for s in fn.body if flow.pos(s) > flow.pos(lp) and isinstance(s, ast.Return)]
-        ok = len(after) == 1 and isinstance(after[0].value, ast.Constant) and after[0].value.value is (not decisive)
-        ctx.expect(ok, fn, f'{name} falls through to {not decisive}', f'{name} does not return {not decisive} when no element decides')
-        # the decisive test takes the truth value of the element itself
-        for r in rets:
-            conds = [c for c in flow.path_conditions(r) if flow.contains(lp, c.origin) and c.kind in ('if',)]
-            tests = [ast.unparse(c.test) for c in conds]
-            truth = any(('bool(' in t_ or t_.startswith('not ') or True) for t_ in tests)
-            pol_ok = False
-            for c in conds:
-                t_ = c.test
-                neg = isinstance(t_, ast.UnaryOp) and isinstance(t_.op, ast.Not)
-                inner = t_.operand if neg else t_
-                if isinstance(inner, ast.Call) and isinstance(inner.func, ast.Name) and inner.func.id == 'bool':
-                    inner = inner.args[0]
-                if isinstance(inner, ast.Name):
-                    # element truth (True) leads to return under polarity ^ neg
-                    elem_true = c.polarity != neg
-                    pol_ok = elem_true == decisive
-            ctx.expect(pol_ok, r, f'{name}: decisive element is a {"true" if decisive else "false"} one',
-                       f'{name} returns {decisive} for the wrong truth value of an element')
-        # only blanks are skipped
-        for c in ast.walk(lp):
-            if isinstance(c, ast.Continue):
-                conds = [cd for cd in flow.path_conditions(c) if flow.contains(lp, cd.origin) and cd.kind == 'if']
-                only_blank = len(conds) >= 1 and all(
-                    isinstance(cd.test, ast.Call) and ctx.res.resolve(cd.test.func, f.module) == XLT + 'Blank.is_blank' and cd.polarity
-                    for cd in conds)
-                ctx.expect(only_blank, c, f'{name} skips blanks only',
-                           f'{name} skips elements under `{ast.unparse(conds[0].test)[:70] if conds else "?"}`: the truth values of '
-                           'non-blank elements (e.g. logical cells inside a range) are ignored')
-            if isinstance(c, ast.comprehension) and c.ifs and flow.contains(lp, c):
-                ctx.bad(c, f'{name} filters elements in a comprehension', f'{name} filters elements with `{ast.unparse(c.ifs[0])[:60]}`')
-        # helper generators feeding the loop are followed one level
-        for c in ast.walk(lp):
-            if isinstance(c, ast.Call) and isinstance(c.func, ast.Name):
-                hm, hfn = ctx.res.lookup(ctx.res.resolve(c.func, f.module) or '')
-                if isinstance(hfn, ast.FunctionDef) and hm is f.module and hfn is not fn:
-                    for x in ast.walk(hfn):
-                        if isinstance(x, ast.Continue):
-                            conds = [cd for cd in flow.path_conditions(x) if cd.kind == 'if']
-                            only_blank = len(conds) >= 1 and all(
-                                isinstance(cd.test, ast.Call) and ctx.res.resolve(cd.test.func, hm) == XLT + 'Blank.is_blank' and cd.polarity
-                                for cd in conds)
-                            ctx.expect(only_blank, x, f'{name} (via {hfn.name}) skips blanks only',
-                                       f'{hfn.name} skips elements under `{ast.unparse(conds[0].test)[:70] if conds else "?"}`: non-blank '
-                                       'elements are ignored')
+        ctx.expect(out.end == 'return' and out.value is decisive and log == ['t0', 't1'], f.node, f'{name} stops at the decisive argument',
+                   f'{name} evaluates {log} although its second argument decides the result: arguments after the decisive one must not be evaluated')
     f = _regfunc(ctx, 'NOT')
-    r = last_return(f.node)
-    p = func_params(f.node)[0]
-    ok = r is not None and isinstance(r.value, ast.UnaryOp) and isinstance(r.value.op, ast.Not) \
-        and sum(1 for c in ast.walk(r.value) if isinstance(c, ast.Call) and isinstance(c.func, ast.Name) and c.func.id == p) == 1
-    if not ok and r is not None:
-        # result may be held in a local first
-        calls = [c for c in flow.calls_in(f.node) if isinstance(c.func, ast.Name) and c.func.id == p]
-        nots = [u for u in walk_local(f.node) if isinstance(u, ast.UnaryOp) and isinstance(u.op, ast.Not)]
-        ok = len(calls) == 1 and len(nots) >= 1 and any(isinstance(rr.value, ast.UnaryOp) and isinstance(rr.value.op, ast.Not)
-                                                        for rr in value_returns(f.node))
-    ctx.expect(ok, f.node, 'NOT negates the truth value of its thunk', 'NOT does not return the negation of its (single) evaluated argument')
-    ctx.floor(12, 'AND/OR/NOT structure')
+    for v, want in ((True, False), (False, True), (0, True), (3, False)):
+        log = []
+        out = _call(ctx, f, [_Thunk('t', v, log)])
+        ctx.expect(out.end == 'return' and out.value is want and log == ['t'], f.node, f'NOT({v!r})',
+                   f'NOT({v!r}) gives {out.value!r} after evaluating {log}')
+    ctx.floor(28, 'AND/OR/NOT decision tables')
 
 
 def rule_4(ctx):
@@ -316,69 +260,30 @@ def rule_4(ctx):
 
 
 def rule_5(ctx):
-    for name in LOGICALS:
+    """An error value produced by an evaluated argument is the result."""
+    err = Rec(cls=XLERR + 'DivZeroExcelError', value='#DIV/0!')
+    specs = {
+        'IF': ([err, 'A', 'B'], 'IF: an error condition is returned as the result'),
+        'AND': ([err, True], 'AND: an error among the evaluated arguments is returned'),
+        'OR': ([err, False], 'OR: an error among the evaluated arguments is returned'),
+        'NOT': ([err], 'NOT: an error argument is returned'),
+    }
+    for name, (vals, construct) in specs.items():
         f = _regfunc(ctx, name)
-        fn = f.node
-        thunk_names = set()
-        for p in f.params:
-            if p.annotation is not None and _is_xlexpr(ctx, p.annotation, f.module):
-                thunk_names.add(p.name)
-        # loop variables over var-positional thunks
-        for n in walk_local(fn):
-            if isinstance(n, ast.For) and names_in(n.iter) & thunk_names and isinstance(n.target, ast.Name):
-                thunk_names.add(n.target.id)
-        calls = [c for c in flow.calls_in(fn) if isinstance(c.func, ast.Name) and c.func.id in thunk_names]
-        # which calls have their result used for truth (condition position)?
-        for k_, c in enumerate(sorted(calls, key=flow.pos), 1):
-            par = c._parent
-            role = None
-            if isinstance(par, ast.Assign):
-                role = 'stored'
-            elif isinstance(par, (ast.IfExp, ast.If, ast.While)) and par.test is c:
-                role = 'truth'
-            elif isinstance(par, ast.UnaryOp) and isinstance(par.op, ast.Not):
-                role = 'truth'
-            elif isinstance(par, ast.Call) and isinstance(par.func, ast.Name) and par.func.id == 'bool':
-                role = 'truth'
-            elif isinstance(par, (ast.Return, ast.IfExp)):
-                role = 'returned'
-            elif isinstance(par, ast.List):
-                role = 'stored'
-            if role == 'returned':
-                continue   # branch value handed on unchanged
-            ok = False
-            if role == 'stored' and isinstance(par, ast.Assign) and isinstance(par.targets[0], ast.Name):
-                var = par.targets[0].id
-                ok = _error_checked(ctx, fn, f.module, var, par)
-            elif role == 'stored':
-                # e.g. xl.flatten([val]) patterns are handled through the variable holding the value
-                g = par
-                while g is not None and not isinstance(g, ast.Assign):
-                    g = getattr(g, '_parent', None)
-                if g is not None and isinstance(g.targets[0], ast.Name):
-                    ok = _error_checked(ctx, fn, f.module, g.targets[0].id, g)
-            ctx.expect(ok, c, f'{name}: result of thunk call #{k_} checked for errors',
-                       f'{name} takes the truth value of `{ast.unparse(c)}` without testing it for an error value first: an error '
-                       f'in the condition/argument is treated as TRUE/FALSE instead of being returned '
-                       f'(IF(1/0,1,2)=1, AND(1/0,TRUE)=TRUE, OR(#N/A,FALSE)=TRUE, NOT(#N/A)=FALSE)')
-    ctx.floor(4, 'thunk calls in IF/AND/OR/NOT')
+        log = []
+        try:
+            out = _call(ctx, f, [_Thunk(f't{i}', v, log) for i, v in enumerate(vals)])
+        except Unmodelled as exc:
+            raise Unmodelled(f'{name}: {exc}')
+        ok = out.end == 'return' and out.value is err
+        ok = ok or (out.end == 'raise' and isinstance(out.value, Rec) and out.value is err)
+        ctx.expect(ok, f.node, construct,
+                   f'{name} takes the truth value of an argument that evaluated to #DIV/0! (result {out.value!r}) instead of returning the '
+                   f'error: IF(1/0,1,2)=1, AND(1/0,TRUE)=TRUE, OR(#N/A,FALSE)=TRUE, NOT(#N/A)=FALSE')
+    ctx.floor(4, 'thunk results in IF/AND/OR/NOT')
 
 
 def _error_checked(ctx, fn, m, var, after):
-    """An isinstance(<var or item derived from it>, ExcelError) test followed by return/raise exists after the call."""
-    deps = flow.Deps(fn)
-    for n in walk_local(fn):
-        if isinstance(n, ast.If) and flow.pos(n) > flow.pos(after):
-            for x in ast.walk(n.test):
-                if isinstance(x, ast.Call) and isinstance(x.func, ast.Name) and x.func.id == 'isinstance' and len(x.args) == 2:
-                    cls = x.args[1]
-                    refs = [ctx.res.resolve(e, m) for e in (cls.elts if isinstance(cls, ast.Tuple) else [cls])]
-                    if any(is_excel_error_ref(ctx, r) and r == XLERR + 'ExcelError' for r in refs):
-                        if var in deps.closure(names_in(x.args[0])) and flow.leaves_function(n.body):
-                            return True
-                elif isinstance(x, ast.Call) and isinstance(x.func, ast.Attribute) and x.func.attr == 'is_error':
-                    if x.args and var in deps.closure(names_in(x.args[0])) and flow.leaves_function(n.body):
-                        return True
     return False
 
 
